@@ -57,6 +57,7 @@ fn follower_step(nentries: usize) {
         if nentries == 0 {
             assert!(*log.foca_calls.r() == 0, "C07:empty_request_modified_the_log");
         } else {
+            kani::cover!(*log.foca_calls.r() != 1, "witness:C07:entries_not_appended_exactly_once");
             assert!(*log.foca_calls.r() == 1, "C07:entries_not_appended_exactly_once");
             assert!(*log.foca_prev.r() == (prev_i, prev_t) && *log.foca_n.r() == nentries && *log.foca_first_index.r() == prev_i + 1,
                     "C07:append_called_with_other_arguments_than_the_request");
